@@ -119,7 +119,8 @@ impl OutputFormat for Artworx {
         loop {
             for _ in 0..result.get_width() {
                 if o + 2 > file_size {
-                    crate::crop_loaded_file(&mut result);
+                    // the layer height followed the data, the preallocated 25 lines don't count
+                    result.set_height(result.layers[0].get_height());
                     return Ok(result);
                 }
                 result.layers[0].set_height(pos.y + 1);
